@@ -79,6 +79,12 @@ def entry(fn, bits, xh, yh):
         e -= 1
     elif mp.ldexp(mp.mpf(1), e + 1) <= a:
         e += 1
+    # exponents far outside every binary format (exp2(1e30), erfc(1e20) ...) are clamped: TLC's integers are 32-bit, and beyond the
+    # format's range only the sign and the side (overflow / underflow) of the exact value enter the judgement
+    if e > 100000:
+        return (0, s, 100000, 1 << (P + 7), yl)
+    if e < -100000:
+        return (0, s, -100000, 1 << (P + 7), yl)
     m = int(mp.floor(mp.ldexp(a, P + 7 - e)))
     return (0, s, e, m, yl)
 
